@@ -249,11 +249,15 @@ func (c *keyCache) GetOrLoad(id KeyMeta, loader func(KeyMeta) (*internal.CryptoK
 	verifHook("kc.getorload.enter", nil)
 	c.rw.RLock()
 	k, ok := c.getFresh(id)
+	if ok {
+		// take the caller's reference while the read lock still keeps evictions out
+		tracked(k)
+	}
 	c.rw.RUnlock()
 	verifHook("kc.getorload.after_runlock", nil)
 
 	if ok {
-		return tracked(k), nil
+		return k, nil
 	}
 
 	c.rw.Lock()
